@@ -12,8 +12,10 @@ fn ops() -> Address {
 fn k(a: &Address) -> Val {
     DataKey::Operators(a.clone()).into_val(&Env)
 }
+// membership is OBSERVED through the public query; only the pre-state is SEEDED through the storage key, and
+// `setup()` checks that what it seeded is what the contract reads (otherwise: inconclusive, not a violation)
 fn member(a: &Address) -> bool {
-    model::storage_has(&ops(), 0, &k(a))
+    model::with_contract(&ops(), || AxelarOperators::is_operator(Env, a.clone()))
 }
 fn setup() -> (Env, Address, Address, bool, Address, bool) {
     let env = Env::default();
@@ -26,6 +28,7 @@ fn setup() -> (Env, Address, Address, bool, Address, bool) {
     let w_was: bool = kani::any();
     model::storage_set_if(t_was, &ops(), 0, &k(&target), &model::val_of(&true));
     model::storage_set_if(w_was && witness != target, &ops(), 0, &k(&witness), &model::val_of(&true));
+    kani::assert(member(&target) == t_was && (witness == target || member(&witness) == w_was), "MODEL:seeded pre-state is not what the contract reads (storage layout differs from the one this harness seeds)");
     (env, owner, target, t_was, witness, w_was)
 }
 
